@@ -443,13 +443,16 @@ def impl_roundtrip(case):
     G, writer, fmt = case["G"], case["writer"], case["fmt"]
     out = {"reads": {}, "adapters": {}}
     store = zarr.storage.MemoryStore()
-    kw = {"axis_names": list(case["axes"])} if case.get("axes") else {}
-    try:
+
+    def write_graph(G, writer, layout, store, axes, md):
+        kw = {"axis_names": list(axes)} if axes else {}
+        if md is not None:
+            kw["metadata"] = md
         if writer == "nx":
             geff.write(build_nx(G), store, zarr_format=fmt, **kw)
         elif writer == "rx":
-            g, nid = build_rx(G, case.get("layout", {}))
-            for k in case.get("layout", {}).get("drop_map", []):  # malformed: an index without an id
+            g, nid = build_rx(G, layout)
+            for k in layout.get("drop_map", []):  # malformed: an index without an id
                 nid.pop(sorted(nid)[k % len(nid)], None) if nid else None
             if nid is None:
                 geff.write(g, store, zarr_format=fmt, **kw)
@@ -457,6 +460,21 @@ def impl_roundtrip(case):
                 geff.write(g, store, zarr_format=fmt, node_id_dict=nid, **kw)
         else:
             raise AssertionError(writer)
+
+    try:
+        # the HISTORY of the metadata object handed to the final write: earlier graphs (of the other
+        # class) written and read back, each write receiving the metadata returned by the read before
+        md = None
+        for h in case.get("history", []):
+            st = zarr.storage.MemoryStore()
+            write_graph(h["G"], h["writer"], h.get("layout", {}), st, h.get("axes"), md)
+            _, md = geff.read(st, backend={"nx": "networkx", "rx": "rustworkx"}[h["reader"]])
+        spec = case.get("md")
+        if spec and spec.get("kind") == "fresh":  # a fresh metadata object that may disagree with the graph class
+            import geff_spec
+
+            md = geff_spec.GeffMetadata(directed=bool(spec["directed"]), node_props_metadata={}, edge_props_metadata={})
+        write_graph(G, writer, case.get("layout", {}), store, case.get("axes"), md)
     except Exception as e:  # noqa: BLE001
         out["write"] = _exc(e)
         return out
@@ -537,7 +555,12 @@ def impl_sg_roundtrip(case):
     try:
         g = build_sg(S)
         out["built"] = obs_sg(g, S["axes"])
-        geff.write(g, store, axis_names=list(S["axes"]), zarr_format=fmt)
+        kw = {}
+        if case.get("md_fresh"):
+            import geff_spec
+
+            kw["metadata"] = geff_spec.GeffMetadata(directed=not S["directed"], node_props_metadata={}, edge_props_metadata={})
+        geff.write(g, store, axis_names=list(S["axes"]), zarr_format=fmt, **kw)
     except Exception as e:  # noqa: BLE001
         out["write"] = _exc(e)
         return out
@@ -1282,14 +1305,14 @@ def roundtrip_cases(rng, items, both_formats, exhaustive_rx=False):
         fmts = (2, 3) if both_formats else (2 + k % 2,)
         for fmt in fmts:
             base = {"stream": "roundtrip", "G": it["G"], "fmt": fmt, "tag": it["tag"]}
-            for extra in ("axes", "readers", "malformed", "expect"):
+            for extra in ("axes", "readers", "malformed", "expect", "md", "history", "model_axes"):
                 if extra in it:
                     base[extra] = it[extra]
             cases.append({**base, "writer": "nx"})
             if it.get("malformed") in ("neg-id",):
                 lays = [{"id_map": True, "holes": []}]
             else:
-                lays = rx_variants(rng, it, exhaustive_rx or it["tag"].startswith(("exh", "special", "corpus", "none-combo")))
+                lays = rx_variants(rng, it, exhaustive_rx or it["tag"].startswith(("exh", "special", "corpus") + (("none-combo",) if both_formats else ())))
             for lay in lays:
                 cases.append({**base, "writer": "rx", "layout": lay})
     return cases
@@ -1303,7 +1326,8 @@ def roundtrip_request(c):
     G = c["G"]
     if _has_np(G):
         return {"op": "nomodel"}
-    req = {"axes": c["axes"]} if c.get("axes") else {}
+    ax = c.get("axes") or c.get("model_axes")
+    req = {"axes": ax} if ax else {}
     if c["writer"] == "nx":
         try:
             g = obs_nx(build_nx(G))  # the edge order / orientation networkx reports is library behaviour
@@ -1354,7 +1378,7 @@ def do_roundtrips(ck, drv, cases, stats):
         if st != "agree" or r["write"] != "ok":
             continue
         for rd, o in r["reads"].items():
-            conv = {"nx": (lambda x: x), "rx": rx_model_as_graph, "sg": (lambda x: sg_model_as_graph(x, c.get("axes") or []))}[rd]
+            conv = {"nx": (lambda x: x), "rx": rx_model_as_graph, "sg": (lambda x: sg_model_as_graph(x, c.get("axes") or c.get("model_axes") or []))}[rd]
             st2 = cmp_outcome(ck, f"C03:{rd}Construct", c, o, mo.get(rd), conv=conv)
             stats[f"model_{rd}_" + st2] += 1
 
@@ -1455,6 +1479,69 @@ def do_dicts(ck, drv, cases, stats):
         stats["model_dict_" + st] += 1
 
 
+def flip_graph(G):
+    """the graph object of the OTHER class holding the same nodes and attributes — what
+    to_directed() / to_undirected() or a PyGraph <-> PyDiGraph conversion produce: an undirected edge
+    becomes both orientations (a self loop one edge); antiparallel / repeated directed edges merge
+    (attributes: union, the first edge wins)"""
+    nodes = [[i, dict(a)] for i, a in G["nodes"]]
+    if G["directed"]:
+        seen = {}
+        for (u, v), a in G["edges"]:
+            key = (min(int(u), int(v)), max(int(u), int(v)))
+            if key in seen:
+                for k, val in a.items():
+                    seen[key][1].setdefault(k, val)
+            else:
+                seen[key] = [[u, v], dict(a)]
+        edges = list(seen.values())
+    else:
+        edges = []
+        for (u, v), a in G["edges"]:
+            edges.append([[u, v], dict(a)])
+            if u != v:
+                edges.append([[v, u], dict(a)])
+    return {"directed": not G["directed"], "nodes": nodes, "edges": edges}
+
+
+def metadata_items(rng, base, n_fresh, n_hist):
+    """the `metadata=` argument of geff.write: (b) a fresh GeffMetadata whose `directed` disagrees with
+    the graph class, (c) the object returned by geff.read of an earlier geff of the other directedness
+    (read -> convert -> write -> read histories of 2 and 3 steps; the written graph keeps the
+    properties / axes the metadata declares — a graph lacking a declared property is refused by
+    write_arrays, which is property C10's subject — and may add one).  Spec: directedness and edge
+    orientation read back are those of the WRITTEN graph object, whatever the metadata said."""
+    base = [it for it in base if not it.get("malformed") and "special" not in it["tag"] and it["G"]["nodes"]]
+    out = []
+    for k in range(n_fresh):
+        it = base[rng.randrange(len(base))]
+        out.append({**it, "tag": "md-fresh-disagrees", "md": {"kind": "fresh", "directed": not it["G"]["directed"]}})
+    pairs = [(w, r) for w in ("nx", "rx") for r in ("nx", "rx")]
+    for k in range(n_hist):
+        it = base[rng.randrange(len(base))]
+        G0 = it["G"]
+        w0, r0 = pairs[k % 4]
+        h0 = {"G": G0, "writer": w0, "layout": {"id_map": True, "holes": []}, "reader": r0}
+        if it.get("axes"):
+            h0["axes"] = it["axes"]
+        G1 = flip_graph(G0)
+        if k % 3 == 0 and not it.get("axes"):  # the converted graph carries one more property than the metadata knows
+            # (not for the spatial-graph readers: no missing values there, and a new dtype signature)
+            for j, (_, a) in enumerate(G1["nodes"]):
+                if j % 2 == 0:
+                    a["added"] = ["i", str(j)]
+        extra = {key: it[key] for key in ("readers",) if key in it}
+        if it.get("axes"):
+            extra["model_axes"] = it["axes"]
+        if k % 3 != 2:
+            out.append({"G": G1, "tag": "md-history-2", "history": [h0], **extra})
+        else:
+            w1, r1 = pairs[(k // 4) % 4]
+            h1 = {"G": G1, "writer": w1, "layout": {"id_map": True, "holes": []}, "reader": r1}
+            out.append({"G": flip_graph(G1), "tag": "md-history-3", "history": [h0, h1], **extra})
+    return out
+
+
 def sg_cross_items(rng, n):
     """sg-domain graphs written from networkx / rustworkx with axis names and read by all three"""
     out = []
@@ -1486,7 +1573,10 @@ def run(ck: common.Check):
                "written from networkx and from rustworkx (indices as ids with holes / explicit node_id_dict with holes) and read "
                "back by every backend, zarr formats 2 and 3, MemoryStore; spatial-graph graphs of a fixed set of dtype signatures "
                "written and read by all three; per node / edge property every combination of {absent, None, regular list, ragged "
-               "list, empty list} over <=3 elements (sampled to 8) — None next to lists = missing; in-memory geffs (9 dtypes, scalar/vector/matrix/var-length, missing masks, 5 id "
+               "list, empty list} over <=3 elements (sampled to 8) — None next to lists = missing; the metadata= argument as None, "
+               "as a fresh object whose `directed` disagrees with the graph class, and as the object returned by reading an "
+               "earlier geff of the other directedness (read -> convert -> write -> read histories of 2 and 3 steps, all "
+               "writer/reader pairs); in-memory geffs (9 dtypes, scalar/vector/matrix/var-length, missing masks, 5 id "
                "dtypes) constructed through every backend and its adapter; dict_props_to_arr called directly. non-trivial = at "
                "least one attribute or edge; distinct = distinct canonical JSON of the case")
     rng = ck.rng
@@ -1499,7 +1589,7 @@ def run(ck: common.Check):
     ck.extra["sg_warmup_s"] = round(__import__("time").time() - t0, 1)
 
     # ---- A: networkx / rustworkx writers
-    items = [{"G": c["G"], "tag": "corpus:" + c.get("name", "?"), **{k: c[k] for k in ("axes", "readers") if k in c}} for c in corpus() if "G" in c]
+    items = [{"G": c["G"], "tag": "corpus:" + c.get("name", "?"), **{k: c[k] for k in ("axes", "readers", "md", "history", "model_axes") if k in c}} for c in corpus() if "G" in c]
     items += [{"G": it["G"], "tag": "special:" + tag} for tag, _, it in SPECIAL]
     items += gen_exhaustive(rng, ("small", "around63") if ck.quick else ("small", "sparse", "around63", "large"))
     nrand = 300 if ck.quick else 3500
@@ -1507,6 +1597,9 @@ def run(ck: common.Check):
     items += [gen_random_graph(rng, nmax=8, kinds=[*KINDS, "npscalar", "npscalar", "npscalar"]) for _ in range(nrand // 4)]
     items += gen_none_items(rng, 40 if ck.quick else 600)
     items += sg_cross_items(rng, 24 if ck.quick else 200)
+    pool = [gen_random_graph(rng, nmax=10) for _ in range(60 if ck.quick else 400)] + \
+        [it for it in sg_cross_items(rng, 16 if ck.quick else 80) if it["tag"] == "cross-sg"]
+    items += metadata_items(rng, pool, 40 if ck.quick else 600, 90 if ck.quick else 1500)
     items += [gen_malformed(rng) for _ in range(60 if ck.quick else 600)]
     cases = roundtrip_cases(rng, items, both_formats=not ck.quick)
     phase = {}
@@ -1529,7 +1622,8 @@ def run(ck: common.Check):
 
     # ---- C: spatial-graph writer
     nsg = 100 if ck.quick else 1000
-    cs = [{"stream": "sg", "S": gen_sg(rng, SG_SCHEMAS[k % len(SG_SCHEMAS)]), "fmt": 2 + (k // len(SG_SCHEMAS)) % 2} for k in range(nsg)]
+    cs = [{"stream": "sg", "S": gen_sg(rng, SG_SCHEMAS[k % len(SG_SCHEMAS)]), "fmt": 2 + (k // len(SG_SCHEMAS)) % 2,
+           "md_fresh": k % 3 == 0} for k in range(nsg)]
     cs += [{"stream": "sg", "S": c["S"], "fmt": c.get("fmt", 2)} for c in corpus() if "S" in c]
     t1 = __import__("time").time()
     do_sg(ck, drv, cs, stats)
